@@ -101,7 +101,7 @@ RunMsg(st, m) ==
     [] m.t = "Exec" ->
          \* every nested message must be authorised by the grantee itself
          IF \E i \in DOMAIN m.msgs : SignerOf(m.msgs[i]) # m.grantee THEN Fail(st)
-         ELSE LET r == RunMsgs(st, m.msgs, <<>>) IN IF r.ok THEN OkOut(r.st, [t |-> "exec"]) ELSE Fail(st)
+         ELSE LET r == RunMsgs(st, m.msgs, <<>>) IN IF r.ok THEN OkOut(r.st, [nested |-> Len(m.msgs)]) ELSE Fail(st)
     [] m.t = "UpdParams" ->
          IF m.authority # "gov" THEN Fail(st) ELSE ApplyParams(st, m.mod, m.p)
     [] m.t = "GovProp" ->
